@@ -7,6 +7,7 @@ use crate::vx_lex::*;
 use crate::vx_valid::*;
 use crate::vx_gram::*;
 use crate::vx_chain::*;
+use crate::vx_link::*;
 use crate::data::*;
 use crate::parser::Token;
 use crate::pipeline::tokenize::*;
@@ -26,15 +27,17 @@ fn __vx_parse_to_ast(tokens: Vec<Token>, src: &str) -> (r: Result<crate::data::a
         r is Err ==> r->Err_0 is Parse,
 { unimplemented!() }
 
-/// hypotheses under which the stages compose (consequences of validation that are not carried across the
-/// unverified front end and the T leaf File::get_rules; and the size bound of C07's quantifier):
-/// for the syntax tree of THIS text, every validated form v and every LALR(1) automaton m of v
+/// hypotheses under which the stages compose, for the syntax tree of THIS text:
+/// (1) the front end hands over terminal names without `$` (the lexer guarantees it for its tokens; parser.rs / cst_to_ast,
+///     which only move the names, are not verified);
+/// (2) the size bound of C07's quantifier: the table dimensions of every LALR(1) automaton of a validated form fit usize,
+///     and the declaration count stays below 2^31 - 2^17
 pub open spec fn gen_hyp(src: Seq<char>) -> bool {
-    forall|toks: Seq<Token>, v: crate::data::validated_file::File, m: crate::data::machine::Machine|
+    &&& forall|toks: Seq<Token>| (#[trigger] spec_front(toks, src)) is Ok ==> dollar_free(spec_front(toks, src)->Ok_0)
+    &&& forall|toks: Seq<Token>, v: crate::data::validated_file::File, m: crate::data::machine::Machine|
         #![trigger spec_front(toks, src), is_lalr_of(&v, m)]
         spec_front(toks, src) is Ok && validated_view(spec_front(toks, src)->Ok_0, v) && is_lalr_of(&v, m)
-        ==> syms_known(&v) && sizes_fit(&v, m) && file_terms_known(&v)
-            && v.nonterminals@.len() + v.terminal_enum.variants@.len() < 0x7ffe_0000
+        ==> sizes_fit(&v, m) && v.nonterminals@.len() + v.terminal_enum.variants@.len() < 0x7ffe_0000
 }
 pub open spec fn lexes_to(src: Seq<char>, toks: Seq<Token>) -> bool { ref_lex(src) == Ok::<Seq<STok>, (int, Option<char>)>(toks_view(toks)) }
 pub open spec fn gen_post_validation(src: Seq<char>, e: KikiErr) -> bool {
@@ -88,6 +91,7 @@ pub fn generate(src: &str) -> /*@[*/(r: /*@]*/Result<RustSrc, KikiErr>/*@[*/)/*@
     //@[ proof
     proof {
         assert(validated_view(ast0, validated) && is_lalr_of(&validated, machine));
+        lemma_validated_syms_known(ast0, validated);
         lemma_lalr_machine_ok(&validated, machine);
         assert forall|e: KikiErr| err_is_conflict(file_rules(&validated), &machine, &validated, e) implies #[trigger] gen_post_conflict(e) by {}
     }
